@@ -23,6 +23,23 @@ Provider(keys, cls, attr, g) ==
            hits == {i \in 1..4 : ko[i] \in keys}
        IN IF hits = {} THEN "default" ELSE ko[Min(hits)]
 
+\* Selection is by key membership only: what kind of object the registered provider is (a function, a
+\* callable that happens to be falsy such as a dict-derived memoising provider with an empty cache, ..)
+\* plays no role.
+
+\* An attribute may be assigned several times in its rule (`a=[X] | 'k' a=[X|ID|rrel]`); occ[i] says whether
+\* the i-th assignment carries an RREL expression.  The attribute has a grammar RREL if one is written for it.
+\*   GrammarRrelLastAssignmentWins: what lang.py does -- every assignment overwrites the provider stored on
+\*   the attribute, so only the LAST assignment counts (an RREL written on an earlier one is dropped)
+HasGrammarRrel(occ) ==
+  IF "GrammarRrelLastAssignmentWins" \in Dev THEN occ[Len(occ)] ELSE \E i \in 1..Len(occ) : occ[i]
+
+\* register_scope_providers(sp): the given table REPLACES the one in force
+\*   RegisterMerges (not observed in textX; non-vacuity of the sequence check): keys of earlier calls survive
+RegAfter(old, new) == IF "RegisterMerges" \in Dev THEN old \cup new ELSE new
+RECURSIVE TableAfter(_)
+TableAfter(regs) == IF regs = <<>> THEN {} ELSE RegAfter(TableAfter(SubSeq(regs, 1, Len(regs) - 1)), regs[Len(regs)])
+
 \* what a registered value / a grammar expression becomes: an RREL string given
 \* to register_scope_providers is compiled like the expression in the grammar
 \*   StringNotConverted: the string itself stays in the table (calling it fails)
